@@ -52,6 +52,7 @@ def run(idx: ProgramIndex, rep: Report, tier: str):
     result_buffers_broadcast(idx, rep)
     sizes_from_the_right(idx, rep)
     event_ranks_agree(idx, rep)
+    prior_event_dims(idx, rep)
 
 
 def _families(idx: ProgramIndex) -> List[ClassInfo]:
@@ -891,3 +892,55 @@ def event_ranks_agree(idx: ProgramIndex, rep: Report):
         if checked == 0:
             rep.observe("C08-13", "%s:%s.forward" % (cls.module.name, cls.qualname), fi.where, "no combination of %s with a data-derived value of known event rank could be formed: outside the event-rank domain" % "/".join(sorted(low)))
     rep.floor("C08-13", "kernels with a parameter of event rank < 2", n, 5)
+
+
+# ---- C08-14 --------------------------------------------------------------------------------------------------------
+def prior_event_dims(idx: ProgramIndex, rep: Report):
+    """A prior with scalar parameters is an element-wise density: log_prob(x) has the shape of x, whatever dimension of x is a batch
+    dimension of the module (outputscale and ConstantMean.constant have shape = batch_shape, no trailing singleton).  A prior class whose
+    log_prob reduces the last dimension of its argument is right only if that dimension is an event dimension that its PARAMETERS have;
+    a constructor that reshapes scalar parameters to one dimension creates an event dimension the value need not have - the reduction then
+    sums over the batch, and every element of a batched objective is charged the prior of all elements."""
+    rep.rule("C08-14", "a prior reduces a dimension of its argument only if its parameters have that event dimension: no event dimension made from scalar parameters by reshaping")
+    P = idx.find_class("Prior")
+    n = 0
+    for cls in sorted(idx.subclasses(P), key=lambda c: c.qualname):
+        if not cls.module.name.startswith("gpytorch.priors"):
+            continue
+        for mname in ("log_prob", "_log_prob"):
+            fi = cls.methods.get(mname)
+            if fi is None or len(fi.params) < 2:
+                continue
+            arg = fi.params[1]
+            reds = []
+            for c in calls_in(fi.node):
+                if isinstance(c.func, ast.Attribute) and c.func.attr in ("sum", "mean", "prod") and (c.args or any(k.arg in ("dim", "axis") for k in c.keywords)):
+                    recv = c.func.value
+                    if any(isinstance(x, ast.Call) and (chain(x.func) or "").endswith("diagonal") for x in ast.walk(recv)):
+                        continue  # a trace: matrix-valued event
+                    guarded = [t for t, _b in _enclosing_tests_c08(fi.node, c) if "event_shape" in src(t)]
+                    if isinstance(c, ast.Call) and not guarded:
+                        # the conditional expression form: x.sum(-1) if len(self.event_shape) else x
+                        for ie in ast.walk(fi.node):
+                            if isinstance(ie, ast.IfExp) and "event_shape" in src(ie.test) and any(x is c for x in ast.walk(ie.body)):
+                                guarded = [ie.test]
+                    reds.append((c, bool(guarded)))
+            if not reds:
+                continue
+            n += 1
+            if all(g for _c, g in reds):
+                rep.add("C08-14", "%s:%s.%s[event dimension]" % (cls.module.name, cls.qualname, mname), fi.where, True, "the reduction is applied only when the prior has an event dimension (tested on event_shape)", {})
+                continue
+            reds = [c for c, g in reds if not g]
+            init = cls.methods.get("__init__")
+            promoted = []
+            if init is not None:
+                for x in ast.walk(init.node):
+                    if isinstance(x, ast.IfExp) and "dim()" in src(x.test) and isinstance(x.body, ast.Call) and isinstance(x.body.func, ast.Attribute) and x.body.func.attr in ("view", "reshape", "unsqueeze"):
+                        promoted.append(x)
+            ok = not promoted
+            rep.add("C08-14", "%s:%s.%s[event dimension]" % (cls.module.name, cls.qualname, mname), fi.where, ok,
+                    "the reduced dimension is an event dimension of the parameters as given" if ok else
+                    "`%s` reduces the last dimension of the value, and the constructor turns scalar parameters into that event dimension (`%s`): for a parameter of shape batch_shape (outputscale, ConstantMean.constant) the last dimension is the batch, log_prob returns one number for the whole batch and every element of the batched MLL is charged the prior of all elements"
+                    % (" ".join(src(reds[0]).split())[:50], " ".join(src(promoted[0]).split())[:50]), {})
+    rep.floor("C08-14", "priors that reduce a dimension of their argument", n, 1)
